@@ -74,6 +74,23 @@ func CheckAEAD(a AEAD, prefix []byte, rndLen int, seal SealFn, maxPT, maxAD int)
 		verifrt.Assert(err == nil, "nil and empty associated data are interchangeable")
 		verifrt.AssertEq(got2, pt, "nil/empty associated data: same plaintext")
 	}
+	// A received frame "header || ciphertext" with the header as associated data: the two
+	// arguments are adjacent parts of one buffer, so the associated-data slice's spare capacity
+	// IS the ciphertext. Decryption must not depend on how the caller's buffers are laid out
+	// (and must leave the frame alone).
+	frame := append(append(make([]byte, 0, len(ad)+len(ct)), ad...), ct...)
+	got3, err := a.Decrypt(frame[len(ad):], frame[:len(ad)])
+	verifrt.Assert(err == nil, "Decrypt succeeds when associated data and ciphertext are adjacent parts of one buffer")
+	verifrt.AssertEq(got3, pt, "adjacent buffers: same plaintext")
+	verifrt.AssertEq(frame, append(append([]byte{}, ad...), ct...), "adjacent buffers: the caller's frame is unchanged")
+	// the same on the sending side: header || plaintext
+	frame2 := append(append(make([]byte, 0, len(ad)+len(pt)), ad...), pt...)
+	ct2, err := a.Encrypt(frame2[len(ad):], frame2[:len(ad)])
+	verifrt.Assert(err == nil, "Encrypt succeeds when associated data and plaintext are adjacent parts of one buffer")
+	verifrt.AssertEq(frame2, append(append([]byte{}, ad...), pt...), "adjacent buffers: the caller's plaintext frame is unchanged")
+	got4, err := a.Decrypt(ct2, ad)
+	verifrt.Assert(err == nil, "adjacent buffers: the ciphertext decrypts")
+	verifrt.AssertEq(got4, pt, "adjacent buffers: to the plaintext")
 	verifrt.Observe("ctlen", len(ct))
 	verifrt.Observe("ct", ct)
 	verifrt.Reach("aead-ok")
